@@ -189,8 +189,25 @@ impl ConsumerGroup {
         // Ensure consumer exists
         self.create_consumer(consumer.to_string());
         
+        let mut consumers = self.consumers.write().unwrap();
+        let mut added = 0;
+        
         // Add each entry to pending list
         for entry in &entries {
+            if let Some(existing) = pending.get_entry_mut(&entry.id) {
+                // Re-delivery of an entry that is already pending (the cursor was moved back):
+                // it changes hands exactly as with XCLAIM and is not counted a second time
+                let old_owner = existing.consumer.clone();
+                if let Some(old_consumer) = consumers.get_mut(&old_owner) {
+                    old_consumer.pending_count = old_consumer.pending_count.saturating_sub(1);
+                }
+                if let Some(new_consumer) = consumers.get_mut(consumer) {
+                    new_consumer.pending_count += 1;
+                }
+                pending.transfer_ownership(&entry.id, consumer.to_string());
+                continue;
+            }
+            
             let pending_entry = PendingEntry {
                 id: entry.id,
                 consumer: consumer.to_string(),
@@ -200,19 +217,21 @@ impl ConsumerGroup {
             };
             
             pending.add_entry(pending_entry);
+            if let Some(consumer_obj) = consumers.get_mut(consumer) {
+                consumer_obj.pending_count += 1;
+            }
+            added += 1;
         }
         
-        // Update consumer's pending count
-        let mut consumers = self.consumers.write().unwrap();
+        // Update consumer's last seen time
         if let Some(consumer_obj) = consumers.get_mut(consumer) {
-            consumer_obj.pending_count += entries.len();
             consumer_obj.last_seen = now;
             consumer_obj.idle_time = 0;
         }
         
         // Update total pending
         let mut total = self.total_pending.lock().unwrap();
-        *total += entries.len();
+        *total += added;
         
         // Update last delivered ID
         if let Some(last_entry) = entries.last() {
